@@ -15,4 +15,8 @@ def run(rep, fb, tier):
     fintab.rule_dtype_tables(rep, fb)
     structure.rule_axis(rep, fb, methods=("num",), floor=10, name="AXIS.depth:num")
     forward.rule_same_name(rep, fb, select=lambda f: (f["cls"] or "").endswith("Form") or (f["cls"] or "").endswith("Type"), floor=100, name="FORWARD.same-name:forms-types")
+    from ..rules import lints
+    lints.rule_regular_nesting(rep, fb)
+    from ..rules import lints as _l
+    _l.rule_string_equality(rep, fb)
     rep.units = fb.units
